@@ -34,7 +34,10 @@ def build_traced_server():
     stay valid), removed afterwards; only the build output stays under .build/.
     Returns (path or None, log)"""
     tdir = os.path.join(core.BUILD, "target-traced")
-    src = "/dev/shm/plsv-traced-src"
+    # one scratch location per copy of /verif (stable, so that cargo's fingerprints stay valid from run to run; two
+    # copies of the machinery running side by side must not share it - the build lock is per copy)
+    import hashlib
+    src = "/dev/shm/plsv-traced-src-" + hashlib.sha1(core.VERIF.encode()).hexdigest()[:10]
     env = dict(core.ENV, CARGO_TARGET_DIR=tdir)
     with core.BuildLock():
         shutil.rmtree(src, ignore_errors=True)
